@@ -292,9 +292,9 @@ BORDERLINE = re.compile(r'^(long|many|deep|big)-[a-z-]+/4000')
 # soak, not to the generators (stream_space in the evidence gives the full
 # sizes).
 SIZES = {
-    'form': (900, 5400), 'form-token': (300, None), 'block-skel': (300, None),
-    'block': (200, None), 'block3': (0, 500), 'expr': (1500, 2400),
-    'prog': (40, 400), 'corpus': (1000, 2000),
+    'form': (600, 5400), 'form-token': (200, None), 'block-skel': (200, None),
+    'block': (150, None), 'block3': (0, 500), 'expr': (900, 2400),
+    'prog': (20, 400), 'corpus': (600, 2000),
 }
 
 
@@ -450,7 +450,7 @@ def main(tier, seed):
 
     corpus = [c for c in vlib.run_impl('corpus.load', [None])[0] if 'src' in c]
     fams, space = build_stream(ctx, tier, corpus)
-    budget = float(os.environ.get('C06_BUDGET', 150 if tier == 'quick' else 1050))
+    budget = float(os.environ.get('C06_BUDGET', 170 if tier == 'quick' else 1100))
     replay_known(ctx)
     truncated, first = run_stream(ctx, fams, budget)
     ctx.extra['stream_space'] = space
